@@ -44,6 +44,9 @@ func (r *c19Run) answer(a string) (*vhdr.Header, error) {
 	}
 	r.g.softAll = parts[0] == "softnopath"
 	switch parts[0] {
+	case "fresh": // a header of ANOTHER fork at height h with a fresh timestamp: not expired, but it does not verify against the store
+		c := r.chain[h-1]
+		return &vhdr.Header{Chain: c.Chain, H: c.H, T: time.Now().Add(-2 * time.Second).UnixNano(), Prev: c.Prev, Salt: 8}, nil
 	case "softnopath": // soft-failing forged head AND no intermediate header verifies: the descent bottoms out at the subjective head
 		c := r.chain[h-1]
 		return &vhdr.Header{Chain: c.Chain, H: c.H, T: c.T, Prev: c.Prev, Salt: 3, VK: vhdr.VKVerr1},
@@ -372,6 +375,8 @@ func runC19(tier string, r *rng) {
 	c19Case(r, 20, m30, []string{"head fail fail", "head ok:10 fail", "head ok:59 fail", "head fail ok:60"})
 	c19Case(r, 20, m30, []string{"head ok:30 fail", "head ok:40 fail"}) // peers' head is expired as well
 	c19Case(r, 0, h2, []string{"head fail fail", "head ok:5 fail", "head ok:58 fail", "head fail fail"})
+	// the stored head is expired and the trusted peers answer with a fresh header that does not verify against it
+	c19Case(r, 20, m30, []string{"head fresh:15 fail", "head fresh:20 fail"})
 	// soft-failing network heads through the recency path: one with a path (adopted after bifurcation), forged ones without
 	c19Case(r, 20, h2, []string{"head fail soft:40", "head fail softbad:50", "head fail softnopath:55", "head fail softnopath:42", "head fail ok:59"})
 	k := 60
